@@ -53,6 +53,48 @@ fn epoch_in_message(c: &Certificate) -> bool {
     }
 }
 
+/// phi_f at the protocol's fixed-point precision (unsigned, 8 integer and 24 fractional bits,
+/// nearest with ties to even) as an exact integer; None when it does not fit (negative, >= 256,
+/// not finite). Written out here, independent of the `fixed` crate and of mithril-common.
+pub fn phi_fixed_ref(phi: f64) -> Option<u32> {
+    if !phi.is_finite() || phi < 0.0 {
+        return None;
+    }
+    let r = (phi * 16_777_216.0).round_ties_even();
+    if r >= 4_294_967_296.0 {
+        return None;
+    }
+    Some(r as u32)
+}
+
+/// what a protocol message commits to for "next protocol parameters": sha256(k_be || m_be || phi_fixed_be)
+pub fn params_commitment_ref(p: &mithril_common::entities::ProtocolParameters) -> Option<String> {
+    let f = phi_fixed_ref(p.phi_f)?;
+    let mut h = Sha256::new();
+    h.update(p.k.to_be_bytes());
+    h.update(p.m.to_be_bytes());
+    h.update(f.to_be_bytes());
+    Some(hex::encode(h.finalize()))
+}
+
+/// the independent commitment must agree with the repository's on honest parameters
+pub fn self_check_params_commitment(rng: &mut rand_chacha::ChaCha20Rng) -> Result<(), String> {
+    use rand_core::RngCore;
+    for i in 0..4000u64 {
+        let phi = match i % 4 {
+            0 => (rng.next_u64() >> 11) as f64 / (1u64 << 53) as f64,
+            1 => ((rng.next_u64() % 16_777_216) as f64 + 0.5) / 16_777_216.0,
+            2 => (rng.next_u64() % 16_777_217) as f64 / 16_777_216.0,
+            _ => *[0.05, 0.2, 0.5, 0.65, 0.8, 0.95, 1.0].get((rng.next_u64() % 7) as usize).unwrap(),
+        };
+        let p = mithril_common::entities::ProtocolParameters { k: rng.next_u64() % 1000, m: rng.next_u64() % 100_000, phi_f: phi };
+        if params_commitment_ref(&p) != Some(p.compute_hash()) {
+            return Err(format!("reference parameter commitment disagrees with the repository's for {p:?}"));
+        }
+    }
+    Ok(())
+}
+
 impl Reference {
     fn multisig_valid(&self, c: &Certificate) -> bool {
         let CertificateSignature::MultiSignature(_, ms) = &c.signature else { return false };
@@ -83,8 +125,11 @@ impl Reference {
 
     fn params_same(&self, a: &Certificate, b: &Certificate) -> bool {
         let (pa, pb) = (&a.metadata.protocol_parameters, &b.metadata.protocol_parameters);
-        // identity of parameters = identity of what a chain commits to (k, m, phi_f as hashed)
-        let same = pa.compute_hash() == pb.compute_hash();
+        // identity of parameters = identity of what a chain commits to: k, m and phi_f at the
+        // protocol's fixed-point precision, computed HERE (not with ProtocolParameters::compute_hash
+        // / PartialEq, which are part of what is checked); a phi_f outside the fixed-point range is
+        // the same as nothing
+        let same = pa.k == pb.k && pa.m == pb.m && phi_fixed_ref(pa.phi_f).is_some() && phi_fixed_ref(pa.phi_f) == phi_fixed_ref(pb.phi_f);
         if same && pa.phi_f.to_bits() != pb.phi_f.to_bits() {
             *self.params_equal_only_as_committed.borrow_mut() += 1;
         }
@@ -205,7 +250,7 @@ impl Reference {
                 return Err(rej("link-previous-epoch-avk", format!("previous '{}' (epoch {}) does not commit to the AVK of '{}'", next.hash, next.epoch, cur.hash)));
             }
             let p = next.protocol_message.get_message_part(&ProtocolMessagePartKey::NextProtocolParameters);
-            if p != Some(&cur.metadata.protocol_parameters.compute_hash()) {
+            if p.is_none() || p != params_commitment_ref(&cur.metadata.protocol_parameters).as_ref() {
                 return Err(rej("link-previous-epoch-parameters", format!("previous '{}' (epoch {}) does not commit to the parameters of '{}'", next.hash, next.epoch, cur.hash)));
             }
         } else if cur.epoch.0.checked_add(1) == Some(next.epoch.0) {
